@@ -176,13 +176,26 @@ impl TransitivityProof {
 }
 
 // replaces 'private' slots with enumerated slot-names, like a shape.
+// The enumeration only counts private slots: two congruent e-nodes get the same names for their private slots,
+// even if their children carry a different number of (public) slots.
 pub(crate) fn alpha_normalize<L: Language>(n: &L) -> L {
-    let (sh, bij) = n.weak_shape();
-    if CHECKS {
-        let all_slots: SmallHashSet<_> = sh.all_slot_occurrences().into_iter().collect();
-        assert!(&bij.values().is_disjoint(&all_slots));
+    let mut c = n.clone();
+    let mut map = SlotMap::new();
+    for x in c.private_slot_occurrences_mut() {
+        let y = match map.get(*x) {
+            Some(y) => y,
+            None => {
+                let y = Slot::numeric(map.len() as u32);
+                map.insert(*x, y);
+                y
+            }
+        };
+        *x = y;
     }
-    sh.apply_slotmap(&bij)
+    if CHECKS {
+        assert!(&map.values().is_disjoint(&c.slots()));
+    }
+    c
 }
 
 impl CongruenceProof {
